@@ -2,7 +2,10 @@
 
 Mode P: every well-typed multi-domain expression tree (generator of C03 plus library operators living
 directly on several keys, vf/ref/c04_expr.py) with >= 2 input keys  x  EVERY non-empty proper subset of its
-keys as constants  x  real|complex input  x  grid point.
+keys as constants  x  input dtype  x  grid point.  Input dtypes: all keys real | all keys complex | (for trees
+containing a VariableCovarianceGaussianEnergy) "complex with a real inverse-covariance key b", the only way to
+reach the complex-sampling-dtype VCGE and the _SpecialGammaEnergy / GaussianEnergy it specialises to; tangent
+bases, adjoint and metric comparisons follow the dtype of each key.
 
 Oracle (agreement property, as stated): the original operator evaluated at (constants U variables).
   c_out, sop = op.simplify_for_constant_input(x[const])
@@ -26,7 +29,7 @@ from vf.core import ok, bad, skip
 ID = "C04"
 LEVEL = "exploration"
 JAX = True
-RULE = ("case = (expression tree with >= 2 input keys, set of constant keys, real|complex, grid point); ALL trees of "
+RULE = ("case = (expression tree with >= 2 input keys, set of constant keys, real|complex|complex+real-icov, grid point); ALL trees of "
         "the stated blocks x ALL non-empty proper key subsets; non-trivial = simplify_for_constant_input ran on a "
         "proper subset and value, Jacobian (and metric / EnergyAdapter for scalar trees) of the specialised "
         "operator were compared with the original; outcome = which specialisation mechanism was used")
